@@ -291,8 +291,8 @@ def qd_wake_blocked(ctx):
                     if cf and any((tt['func'].get('fn') or '').endswith(NOTIFY) for _, tt in cf.calls()):
                         walks.append(bb)
                         notif.append(bb)
-        if not touches:
-            walks = []
+        # the walk starts where the list is borrowed for it: a notify inside a `for` body is conditional on the list's contents, not on the path
+        walks = [b for b in touches if any(n == b or n in rq.reachable_blocks(b) for n in notif)]
         if not walks or not notif:
             out.append(bad(R, key, 'reschedule_queue no longer walks wake_blocked and notifies the blocked sync callers', fn=rq.name))
         elif rq.must_pass(0, set(rq.exits()), set(walks)):
